@@ -1206,7 +1206,8 @@ class TmpStore:
         if not os.path.exists(targetpath):
             os.makedirs(targetpath)
 
-        targetname = self._getCleanFilename(oid, serial)
+        # One file per store: an earlier savepoint may be rolled back to.
+        targetname = self._getCleanFilename(oid, self.index[oid])
         rename_or_copy_blob(blobfilename, targetname, chmod=False)
 
     def loadBlob(self, oid, serial):
@@ -1216,7 +1217,11 @@ class TmpStore:
             raise Unsupported(
                 "Blobs are not supported by the underlying storage %r." %
                 self._storage)
-        filename = self._getCleanFilename(oid, serial)
+        pos = self.index.get(oid)
+        if pos is None:
+            # not (or, after a rollback, no longer) stored in a savepoint
+            return self._storage.loadBlob(oid, serial)
+        filename = self._getCleanFilename(oid, pos)
         if not os.path.exists(filename):
             return self._storage.loadBlob(oid, serial)
         return filename
@@ -1236,11 +1241,11 @@ class TmpStore:
             self._blob_dir = blob_dir
         return blob_dir
 
-    def _getCleanFilename(self, oid, tid):
+    def _getCleanFilename(self, oid, pos):
+        # pos: position of the object's record in this store
         return os.path.join(
             self._getBlobPath(),
-            "{}-{}{}".format(utils.oid_repr(oid), utils.tid_repr(tid),
-                             SAVEPOINT_SUFFIX)
+            "{}-{}{}".format(utils.oid_repr(oid), pos, SAVEPOINT_SUFFIX)
         )
 
     def temporaryDirectory(self):
